@@ -544,7 +544,8 @@ func (g *gen) writeFuncImplEpilogue(b *buffer) error {
 
 		b.writes("goto exit;\nexit:\n") // The goto avoids the "unused label" warning.
 
-		if g.currFunk.astFunc.Public() {
+		if g.currFunk.astFunc.Public() && !g.currFunk.astFunc.Effect().Pure() {
+			// Pure methods have a const receiver (and cannot disable it).
 			epilogue = "if (wuffs_base__status__is_error(&status)) {\n" +
 				"self->private_impl.magic = WUFFS_BASE__DISABLED;\n}\n" +
 				"return status;\n"
